@@ -73,8 +73,12 @@ fn op(r: &Rec) -> Vec<Vec<i128>> {
             let mut g = Rng::new(0xC0FFEE ^ (run * 7919) ^ (r.ps.iter().fold(0u64, |h, x| h.wrapping_mul(31).wrapping_add(*x as u64))));
             let sbytes = 1usize << 16;
             let mut sc = scratch_filled::<BE>(sbytes + n * 4096, g.next() as i64);
-            let mut res_dft = m.vec_znx_dft_alloc(rcols, rsize);
+            // destination with capacity beyond its active size in two thirds of the records: limbs [rsize, cap) of every
+            // column are "unused capacity" and must come out exactly as they went in
+            let cap = rsize + (r.ps.iter().fold(0u64, |h, x| h.wrapping_mul(17).wrapping_add(*x as u64)) % 3) as usize;
+            let mut res_dft = m.vec_znx_dft_alloc(rcols, cap);
             garbage(res_dft.data_mut().as_mut(), &mut g);
+            res_dft.set_size(rsize);
             let a = if !r.vs.is_empty() && !matches!(code, 7010 | 7011 | 7012) { mk_vec_znx(n, acols, asize, asize, &v64(&r.vs[0])) } else { mk_vec_znx(n, 1, 1, 1, &vec![0; n]) };
             // helper: VecZnx -> fresh VecZnxDft with every column transformed
             let to_dft = |v: &VecZnx<Vec<u8>>, cols: usize, size: usize| {
@@ -151,9 +155,9 @@ fn op(r: &Rec) -> Vec<Vec<i128>> {
             // frame: the dft destination outside the selected column(s) must be exactly the garbage we put there
             let mut g2 = Rng::new(0xC0FFEE ^ (run * 7919) ^ (r.ps.iter().fold(0u64, |h, x| h.wrapping_mul(31).wrapping_add(*x as u64))));
             let _ = g2.next();
-            let mut ref_dft = m.vec_znx_dft_alloc(rcols, rsize);
+            let mut ref_dft = m.vec_znx_dft_alloc(rcols, cap);
             garbage(ref_dft.data_mut().as_mut(), &mut g2);
-            let limb_bytes = dft_after.len() / (rcols * rsize).max(1);
+            let limb_bytes = dft_after.len() / (rcols * cap).max(1);
             let ranges: Vec<(usize, usize)> = sel.iter().flat_map(|c| col_ranges(rcols, rsize, *c, limb_bytes)).collect();
             frames.push(outside_equal(&dft_after, ref_dft.data().as_ref(), &ranges));
             cols_out.push(out);
